@@ -82,16 +82,23 @@ Definition dir_set (lv i : nat) : set :=
   if i <? lv then filter tpb (AFm i)
   else if i =? lv then union (filter tpb (AFm i)) (filter tpb (DFm i)) else [].
 
-(* cell_supp_indices(remove_dirichlet=False)   hierarchical.py:716-732
-   starts from new_indices() (:655-664): entry [lv][lv] = sorted(actfun - dirichlet) + sorted(deactfun - dirichlet) *)
-Definition cell_supp (lv i : nat) : list mi :=
-  if in_window (hs_disparity st) lv i then
+(* cell_supp_indices(remove_dirichlet=False, disparity)   hierarchical.py:716-732
+   starts from new_indices() (:655-664): entry [lv][lv] = sorted(actfun - dirichlet) + sorted(deactfun - dirichlet).
+   The window argument `disparity` (default: the disparity of the space) is the REPAIRED signature
+   (fixes/C03-assembly-disparity-window.patch). *)
+Definition cell_supp_d (disp : option nat) (lv i : nat) : list mi :=
+  if in_window disp lv i then
     inter (supported_in (msh st i) (cell_grandparent (lv - i) (support (msh st lv) (AFm lv)))) (AFm i)
   else if i =? lv then diff (AFm i) (dir_set lv i) ++ diff (DFm i) (dir_set lv i)
   else [].
 
-(* _hdiscr.py:79-82: neighbors[k][k] = [] *)
-Definition neighbors (k i : nat) : list mi := if i =? k then [] else cell_supp k i.
+Definition cell_supp (lv i : nat) : list mi := cell_supp_d (hs_disparity st) lv i.
+
+(* _hdiscr.py:79-82: neighbors = cell_supp_indices(remove_dirichlet=False, disparity=inf); neighbors[k][k] = [].
+   REPAIRED behaviour: every coarser level is searched.  The unpatched source used the window of the space,
+   which loses interactions on meshes that are not HB-admissible for that disparity (neighbors_old). *)
+Definition neighbors (k i : nat) : list mi := if i =? k then [] else cell_supp_d None k i.
+Definition neighbors_old (k i : nat) : list mi := if i =? k then [] else cell_supp k i.
 
 End Asm.
 
@@ -204,11 +211,10 @@ Fixpoint fgrand (n lv : nat) (fs : list mi) : list mi :=
 (* ---- _hdiscr.py:84-102 ---------------------------------------------------------------- *)
 Definition nbr (k i : nat) : list mi := neighbors st None k i.
 
-(* for lv in range(max(0, k - disparity), k): indices |= function_grandchildren(lv, neighbors[k][lv], k) *)
+(* for lv in range(k): indices |= function_grandchildren(lv, neighbors[k][lv], k)
+   (REPAIRED: the unpatched loop started at max(0, k - disparity)) *)
 Definition interlevel (k : nat) : set :=
-  fold_left (fun acc lv => if in_window (hs_disparity st) k lv
-                           then union acc (of_list (fgrand (k - lv) lv (nbr k lv))) else acc)
-            (seq 0 k) [].
+  fold_left (fun acc lv => union acc (of_list (fgrand (k - lv) lv (nbr k lv)))) (seq 0 k) [].
 Definition to_assemble (k : nat) : set := union (interlevel k) (AFk k).
 
 (* _bbox_for_functions :225-233 *)
